@@ -336,6 +336,17 @@ func (tr *vTrigRun) checkTriggers(ch int) {
 		if ep.lenChanged {
 			lo += npre
 		}
+		// A record needs npre samples before its trigger. After the record length grew, only the history kept for
+		// the OLD length exists, so samples closer than the new npre to the most recent length change cannot be
+		// triggered yet, in this epoch or in one that begins a few (possibly 1-sample) blocks later.
+		for ej := ei; ej >= 0; ej-- {
+			if tr.epochs[ej].lenChanged {
+				if l2 := int(tr.epochs[ej].startFrame-f.firstFrame) + npre; l2 > lo {
+					lo = l2
+				}
+				break
+			}
+		}
 		if lo < npre {
 			lo = npre
 		}
